@@ -9,6 +9,7 @@ import csv
 import gc
 import gzip
 import io
+import itertools
 import json
 import os
 
@@ -181,6 +182,9 @@ def gen_case(rng, tier, g):
                                     if h[0] == 'TO' and rng.random() < 0.2],
             'failed_at': rng.randint(0, 6),
             'fluent': rng.random() < 0.15,
+            'relname': rng.choice(['http_status', 'https-certs', 'ftp_list',
+                                   'smb_share', 's3_dump', 'file_x', 'C_'])
+            if target.startswith('path') and rng.random() < 0.3 else None,
             'failed_mode': rng.choice(['source', 'source', 'sink']),
             'srcobj': rng.choice([None, None, 'object', 'bgz'])
             if target.startswith('path') else None,
@@ -258,6 +262,23 @@ class Target(object):
         if self.kind == 'path-bz2':
             return bz2.decompress(data)
         return data
+
+
+class _cwd(object):
+    def __init__(self, path):
+        self.path = path
+        self.saved = None
+
+    def __enter__(self):
+        if self.path:
+            self.saved = os.getcwd()
+            os.chdir(self.path)
+        return self
+
+    def __exit__(self, *a):
+        if self.saved:
+            os.chdir(self.saved)
+        return False
 
 
 def _json_reference_ok(table, args):
@@ -405,9 +426,14 @@ def run_case(case):
     sig = {'fmt': fmt, 'target': kind, 'encoding': args.get('encoding')}
     nontrivial = False
     try:
-        with devices.TempSandbox() as sb:
+        with devices.TempSandbox() as sb, _cwd(sb.path if case.get('relname')
+                                               else None):
             store = SimStore(frag=case.get('frag'))
-            tgt = Target(e, kind, fmt, store, sb.path, 't',
+            # (a relative file name, in the sandbox as working directory:
+            # names that merely begin like a URL scheme are local files)
+            tgt = Target(e, kind, fmt, store,
+                         '' if case.get('relname') else sb.path,
+                         case.get('relname') or 't',
                          srcobj=case.get('srcobj'))
             kept = []
             long_view = [None]  # one reader view kept across the history
@@ -493,6 +519,13 @@ def run_case(case):
                     raise _Bad('write-raised', '%s: %s #%d raised %s: %s '
                                '(the stdlib reference accepts these rows)'
                                % (what, op, opi, type(ex).__name__, ex))
+                except _Bad:
+                    raise
+                except Exception as ex:
+                    # nothing else can go wrong with these rows, arguments
+                    # and targets
+                    raise _Bad('write-raised', '%s: %s #%d raised %s: %s'
+                               % (what, op, opi, type(ex).__name__, ex))
                 records = new_records
                 since_to.append((table, whe))
                 log.add('op', opi, op, len(table))
@@ -560,6 +593,23 @@ def run_case(case):
                                       len(raw) - len(args['suffix'])]
                         got = json.loads(raw)
                         want = [list(r) for r in want]
+                    if fresh_view is not None and got is not None:
+                        # two passes over the reader view that overlap (a
+                        # self join, zip(t, t)) read the same
+                        it1 = iter(fresh_view)
+                        a = [r for r in itertools.islice(it1, 2)]
+                        b = [r for r in iter(fresh_view)]
+                        a += [r for r in it1]
+                        del it1
+                        for x in (a, b):
+                            if canon_rows(x) != canon_rows(got):
+                                raise _Bad('round-trip-differs',
+                                           '%s: overlapping passes over the '
+                                           'reader return %r and %r, a '
+                                           'single pass %r' % (what, a, b,
+                                                               got))
+                except _Bad:
+                    raise
                 except Exception as ex:
                     raise _Bad('read-back-raised',
                                '%s: reading back after %s #%d raised %s: %s'
